@@ -18,7 +18,7 @@ LEVEL = "exploration"
 RULE = ("messages of 0..3 blocks (thorough: up to 40) sent in alternating directions between two real SecsIProtocol "
         "endpoints over a simulated line with chunkings (whole, every byte, random cuts); one header/data/checksum byte "
         "flipped in flight at every position of a single-block and a two-block message (enumerated) and at random "
-        "positions otherwise; distinct by (direction, size, chunking, corruption position); all non-trivial; plus: 3-5 block messages over a slow line (pauses of 0.45-0.8 T4 between blocks, more than T4 in total); 2-3 threads of one endpoint sending 1-4 block messages at the same time, their blocks alternating on the line (one side transmitting, every block with its handshake); the very message of a transfer that failed at its second or a later block sent again (same system bytes)")
+        "positions otherwise; distinct by (direction, size, chunking, corruption position); all non-trivial; plus: 3-5 block messages over a slow line (pauses of 0.45-0.8 T4 between blocks, more than T4 in total); 2-3 threads of one endpoint sending 1-4 block messages at the same time, their blocks alternating on the line (one side transmitting, every block with its handshake); the very message of a transfer that failed at its second or a later block sent again (same system bytes); header-only functions through send_response(function, system) with system bytes 0, 1, 0x7FFFFFFF, 0x80000000, 0xFFFFFFFF and random ones, and through send_stream_function")
 ASSUMPTIONS = ["only one side transmits at a time (the harness serialises transfers, as the statement assumes)",
                "retries, T1/T2/T4 time-outs and ENQ contention are outside the statement",
                "a corrupted length byte may leave both ends waiting; there only 'success' and 'delivery' are forbidden"]
@@ -30,7 +30,7 @@ SHARDS = {"quick": 8, "thorough": 16}
 TIMEOUT = {"quick": 300, "thorough": 3000}
 FLOORS = {"transfer.clean.host_to_equipment": 50, "transfer.clean.equipment_to_host": 50, "transfer.corrupted": 20,
           "oracle.trace_blocks": 200, "enumerated.corruption_positions": 100,
-          "transfer.concurrent_senders_blocks_alternated": 8, "transfer.same_message_again_after_a_NAK": 20}
+          "transfer.concurrent_senders_blocks_alternated": 8, "transfer.same_message_again_after_a_NAK": 20, "oracle.api_send_response": 80}
 
 
 class Line:
@@ -247,6 +247,64 @@ def _slow_line(ctx, header_only, rounds):
             end.close()
 
 
+def _api_send(ctx, line, src, classes):
+    """The two sending calls of the application side: send_response(function, system) - the reply carries exactly the system bytes
+    it was given, 0 and the other ends of the range included - and send_stream_function(function); success means the peer got
+    the message once, with that header."""
+    rng = ctx.rng
+    dst = "E" if src == "H" else "H"
+    sender, receiver = line.ends[src], line.ends[dst]
+    cls = rng.choice(classes)
+    line.reset()
+    line.chunker = None
+    before = len(receiver.delivered)
+    api = rng.choice(["send_response", "send_response", "send_stream_function"])
+    system = rng.choice([0, 0, 1, 0x7FFFFFFF, 0x80000000, 0xFFFFFFFF, rng.getrandbits(32)])
+    box = {}
+    done = threading.Event()
+
+    @stuck.harness_thread
+    def run():
+        try:
+            box["ok"] = sender.protocol.send_response(cls(), system) if api == "send_response" else sender.protocol.send_stream_function(cls())
+        except Exception as exc:
+            box["exc"] = repr(exc)
+        done.set()
+    th = threading.Thread(target=run, daemon=True, name="harness-sender")
+    th.start()
+    ctx.count(f"oracle.api_{api}")
+    ctx.case(("api", api, src, cls.__name__, system if api == "send_response" else None))
+    wit = {"direction": f"{src}->{dst}", "call": f"{api}({cls.__name__}()" + (f", {system:#x})" if api == "send_response" else ")")}
+    if not done.wait(10.0):
+        if stuck.blocked_forever([th], watch=0.5):
+            ctx.violation("send-call-blocked-forever", {**wit, "stacks": stuck.stacks()})
+        else:
+            ctx.unsure("send call did not return within 10 s but threads are still moving")
+        return "dead"
+    if "exc" in box:
+        ctx.violation("send-raises", {**wit, "error": box["exc"]})
+        return "dead"
+    if not box["ok"]:
+        ctx.violation("clean-transfer-reported-failure", wit)
+        return "dead"
+    receiver.wait(lambda: len(receiver.delivered) > before, timeout=3.0)
+    if len(receiver.delivered) <= before:
+        receiver.confirm_absent(lambda: len(receiver.delivered) > before)
+    time.sleep(0.002)
+    got = receiver.delivered[before:]
+    if len(got) != 1:
+        ctx.violation("success-but-not-delivered-exactly-once", {**wit, "delivered": len(got)})
+        return "ok"
+    g = got[0]
+    want = {"stream": cls.stream, "function": cls.function, "rbit": src == "E"}
+    if api == "send_response":
+        want["system"] = system
+    gotf = {k: g[k] for k in want}
+    if gotf != want or g["body"] != b"":
+        ctx.violation("delivered-message-differs", {**wit, "got": gotf, "want": want, "body_len": len(g["body"])})
+    return "ok"
+
+
 def _concurrent_senders(ctx, header_only, rounds):
     """Several threads of one endpoint send multi-block messages at the same time: their blocks alternate on the line (every block
     carries the system bytes of its message, every block goes through the complete handshake).  Each message whose send reports
@@ -372,6 +430,10 @@ def run(ctx):
     ctx.exhaustive["corruption_position_of_two_fixed_messages"] = True
     _slow_line(ctx, header_only, 2 if ctx.quick else 40)
     _concurrent_senders(ctx, header_only, 6 if ctx.quick else 300)
+    ho_classes = sorted((f for f in secs_streams_functions if f._data_format is None), key=lambda c: (c.stream, c.function))
+    for j in range(30 if ctx.quick else 1500):
+        if _api_send(ctx, line, "HE"[j % 2], ho_classes) == "dead":
+            line = _new_line()
     n = 300 if ctx.quick else 10000
     max_blocks = 3 if ctx.quick else 40
     from lib import sched
